@@ -87,3 +87,4 @@ pub const CMD_TRACE_LEN: i64 = 18;
 pub const CMD_TRACE_CLEAR: i64 = 19;
 pub const C_AFTER_SLOT0: i64 = 0x1000;
 pub const C_ALL: i64 = 0x17f; // write|fsync|fdatasync|ftruncate|rename|open|unlink|fsync_dir (no mkdir)
+pub const CMD_MTIME_MODE: i64 = 20;
